@@ -186,7 +186,8 @@ Module Doc.
     | TSym _ true => false                  (* name: is a label, not an operand *)
     | TDotSym n => negb (is_reserved n)
     | TInt _ | TFloat _ | TBool _ | TStr _ | TPair _ | TArr _ | THash _ => true
-    | TComma | TSemi | TComment _ | TOther _ => false
+    | TOther _ => true                      (* the nil literal, char and uint64 literals, ... *)
+    | TComma | TSemi | TComment _ => false
     end.
   Definition is_prefix (t : tok) : bool :=
     match t with TSym n false => existsb (String.eqb n) prefix_names | _ => false end.
